@@ -365,8 +365,10 @@ func (an *Analysis) handleStructFields(typ *types.Struct, ctx context) []StructF
 		fieldType := an.handleType(field.Type(), ctx)
 
 		// to simplify, we do not fully support embedded fields :
-		// we only accept structs, and we merge the fields
-		if field.Embedded() {
+		// we only accept structs, and we merge the fields.
+		// Like encoding/json, an embedded field with a name in its json tag
+		// (or ignored with "-") is a regular field, and is not merged.
+		if jsonName, _, _ := strings.Cut(tag.Get("json"), ","); field.Embedded() && jsonName == "" {
 			if st, isStruct := fieldType.(*Struct); isStruct {
 				log.Printf("gomacro: embedded struct field %s will be flattened", field.Name())
 				out = append(out, st.Fields...)
